@@ -274,6 +274,38 @@ def g4_chains(rng, big=False):
     return make_valid(s, rng)
 
 
+def g4b_tiny_chained_surpluses(rng, big=False):
+    """
+    two chained surpluses of about one vote each in an electorate of thousands: the second-generation transfer value
+    (about 2/q^2) underflows to exactly zero at 4 or 5 decimal places
+    """
+    ns = rng.randint(2, 3)
+    q = rng.randint(150, 2500)
+    nc = rng.randint(ns + 2, ns + 4)
+    cands = list(range(1, nc + 1))
+    order = rng.sample(cands, nc)
+    A, B, C = order[0], order[1], order[2]
+    rest = order[3:]
+    d1 = rng.randint(1, 3)
+    lines = [(q + d1, [A, B, C] + rng.sample(rest, rng.randint(0, len(rest))))]
+    lines.append((q - rng.randint(0, d1), [B, C] + rng.sample(rest, rng.randint(0, len(rest)))))
+    if rng.random() < 0.5:
+        lines.insert(rng.randint(0, 2), (rng.randint(1, 5), [B, rng.choice(rest + [C])]))
+    total = q * (ns + 1) - rng.randint(1, ns)
+    left = total - sum(m for m, _ in lines)
+    share = max(1, left // (len(rest) + 1))
+    for c in [C] + rest:
+        m = min(left, max(1, share + rng.randint(-3, 3)), q - 2)
+        if m <= 0:
+            break
+        lines.append((m, [c] + rng.sample([x for x in cands if x != c], rng.randint(0, 2))))
+        left -= m
+    rng.shuffle(lines) if rng.random() < 0.5 else None
+    s = base(nc, ns, lines, rng)
+    s['family'] = 'G4b'
+    return make_valid(s, rng)
+
+
 def g5_coalition(rng, big=False):
     "a solid coalition S supported by about k quotas of ballots"
     nc = rng.randint(4, 9 if big else 7)
@@ -534,7 +566,7 @@ def g9_real_files(rng, big=False, repo=None):
 
 FAMILIES = {
     'G1': g1_uniform, 'G2': g2_ties, 'G3': g3_quota_boundary, 'G4': g4_chains, 'G5': g5_coalition,
-    'G5b': g5b_two_surpluses, 'G11': g11_mid_electorate, 'G6': g6_degenerate, 'G7': g7_withdrawn_undeclared, 'G8': g8_equal_ranks, 'G8b': g8b_quota_creep, 'G9': g9_real_files,
+    'G4b': g4b_tiny_chained_surpluses, 'G5b': g5b_two_surpluses, 'G11': g11_mid_electorate, 'G6': g6_degenerate, 'G7': g7_withdrawn_undeclared, 'G8': g8_equal_ranks, 'G8b': g8b_quota_creep, 'G9': g9_real_files,
     'G10': g10_sure_losers,
 }
 
